@@ -4,7 +4,7 @@ Sidecar file: /repo is not edited.  Postconditions are taken from the property s
 docs/archive_format.rst (via spec.primitives); preconditions / frames from the code's call sites.
 """
 from pyvc.contract import Contract, LoopSpec, RaiseSpec, contract
-from pyvc.values import And, Implies, Not, Or, L, ite, nth, slice_, ceil8, eq
+from pyvc.values import And, Implies, Not, Or, L, ite, nth, slice_, ceil8, eq, to_bytes_le
 from spec import primitives as SP
 
 AI = "py7zr.archiveinfo:"
@@ -160,6 +160,7 @@ class WriteUint32(Contract):
         return [
             ("appends-4", And(L(o1) == n0 + 4, eq(slice_(o1, 0, n0), o0))),
             ("decodes", SP.uint32_le(o1, n0) == value),
+            ("exact", eq(o1, o0 + to_bytes_le(value, 4))),
         ]
 
 
@@ -183,6 +184,7 @@ class WriteRealUint64(Contract):
         return [
             ("appends-8", And(L(o1) == n0 + 8, eq(slice_(o1, 0, n0), o0))),
             ("decodes", SP.uint64_le(o1, n0) == value),
+            ("exact", eq(o1, o0 + to_bytes_le(value, 8))),
         ]
 
 
@@ -402,3 +404,195 @@ class WriteBoolean(Contract):
                 "for-i-b", inv, target="(i, b) in enumerate(booleans)", unfold_init=init, case_split=[("@index_mod", 8)]
             )
         }
+
+
+# ---------------------------------------------------------------------------------------- misc
+@contract
+class BitsToBytes(Contract):
+    target = AI + "bits_to_bytes"
+    props = ("C17", "C07")
+
+    def setup(self, c):
+        return {"bit_length": c.int("bit_length")}
+
+    def fresh_result(self, c, bit_length):
+        return c.int("nbytes")
+
+    def ensures(self, c, old, result, bit_length):
+        return [("ceil-div-8", result == ceil8(bit_length))]
+
+
+# ---------------------------------------------------------------------------------------- CRC lists
+@contract
+class ReadCrcs(Contract):
+    target = AI + "read_crcs"
+    props = ("C17", "C06", "C05")
+    sample_bounds = {"count": (0, 40)}
+
+    def setup(self, c):
+        return {"file": c.instream("file"), "count": c.int("count")}
+
+    def requires(self, c, file, count):
+        return [("count-nonneg", count >= 0)]
+
+    def raises(self):
+        return [RaiseSpec("struct.error", when=lambda c, file, count: L(c.old.data(file)) - c.old.pos(file) < 4 * count, iff=True)]
+
+    def modifies(self, c, file, count):
+        return [(file, "pos")]
+
+    def fresh_result(self, c, file, count):
+        return c.int_list("crcs")
+
+    def ensures(self, c, old, result, file, count):
+        d, p = old.data(file), old.pos(file)
+        r = c.view(result)
+        return [
+            ("length", L(r) == count),
+            ("value-k", ForAll(lambda k: Implies(And(k >= 0, k < count), nth(r, k) == SP.uint32_le(d, p + 4 * k)), over=r)),
+            ("consumed", c.pos(file) == p + 4 * count),
+            ("frame-data", eq(c.data(file), d)),
+        ]
+
+
+@contract
+class WriteCrcs(Contract):
+    target = AI + "write_crcs"
+    props = ("C17", "C07")
+
+    def setup(self, c):
+        return {"file": c.outstream("file"), "crcs": c.int_list("crcs")}
+
+    def requires(self, c, file, crcs):
+        xs = c.view(crcs)
+        return [("crcs-fit-32-bits", ForAll(lambda k: Implies(And(k >= 0, k < L(xs)), And(nth(xs, k) >= 0, nth(xs, k) < (1 << 32))), over=xs))]
+
+    def modifies(self, c, file, crcs):
+        return [(file, "out")]
+
+    def ensures(self, c, old, result, file, crcs):
+        xs = c.view(crcs)
+        o0, o1 = old.out(file), c.out(file)
+        n0 = L(o0)
+        return [
+            ("length", L(o1) == n0 + 4 * L(xs)),
+            ("appends", eq(slice_(o1, 0, n0), o0)),
+            ("value-k", ForAll(lambda k: Implies(And(k >= 0, k < L(xs)), SP.uint32_le(o1, n0 + 4 * k) == nth(xs, k)), over=xs)),
+        ]
+
+    def loops(self):
+        def inv(c, Lp):
+            file = c.bound["file"]
+            xs = c.view(c.bound["crcs"])
+            o0, o = c.old.out(file), c.out(file)
+            n0 = L(o0)
+            i = Lp.i
+            return [
+                ("length", L(o) == n0 + 4 * i),
+                ("appends", eq(slice_(o, 0, n0), o0)),
+                ("value-k", ForAll(lambda k: Implies(And(k >= 0, k < i), SP.uint32_le(o, n0 + 4 * k) == nth(xs, k)), over=xs)),
+            ]
+
+        return {"archiveinfo:write_crcs#loop0": LoopSpec("for-crc", inv, target="crc in crcs")}
+
+
+# ---------------------------------------------------------------------------------------- UTF-16 names
+from pyvc.values import SSeq as _SSeq, is_sym as _is_sym  # noqa: E402
+from spec import utf16 as U16  # noqa: E402
+
+
+@contract
+class WriteUtf16(Contract):
+    """emits the UTF-16-LE code units of the name, then the zero unit"""
+
+    target = AI + "write_utf16"
+    props = ("C17", "C07")
+    assumptions = ("str.encode('utf-16LE') is concatenation-compatible (encoding of a string is the concatenation of the encodings of its characters) - assumed codec fact, DESIGN.md 6.3",)
+
+    def setup(self, c):
+        return {"file": c.outstream("file"), "val": c.str("val")}
+
+    def raises(self):
+        return [RaiseSpec("UnicodeEncodeError")]  # lone surrogates cannot be encoded: an ordinary exception
+
+    def modifies(self, c, file, val):
+        return [(file, "out")]
+
+    def ensures(self, c, old, result, file, val):
+        return [("units-then-terminator", eq(c.out(file), old.out(file) + U16.encode(val) + b"\x00\x00"))]
+
+    def loops(self):
+        def inv(c, Lp):
+            file, val = c.bound["file"], c.bound["val"]
+            return [("emitted-prefix", eq(c.out(file), c.old.out(file) + U16.encode(slice_(val, 0, Lp.i))))]
+
+        def step(c, Lp):
+            val = c.bound["val"]
+            return [U16.concat_axiom(slice_(val, 0, Lp.i), slice_(val, Lp.i, Lp.i + 1)), eq(slice_(val, 0, Lp.i + 1), slice_(val, 0, Lp.i) + slice_(val, Lp.i, Lp.i + 1))]
+
+        def init(c, Lp):
+            return [U16.empty_axiom()]
+
+        return {"archiveinfo:write_utf16#loop0": LoopSpec("for-c", inv, target="c in val", unfold_init=init, unfold_step=step)}
+
+
+MAX_UNITS = 65536  # archiveinfo.MAX_LENGTH (checked against the module constant by the loop anchor below)
+
+
+@contract
+class ReadUtf16(Contract):
+    """returns the decoding of the code units before the first (aligned) zero unit, and consumes them and the
+    terminator; never consumes more than MAX_LENGTH units (C05)"""
+
+    target = AI + "read_utf16"
+    props = ("C17", "C06", "C05")
+
+    def setup(self, c):
+        return {"file": c.instream("file")}
+
+    def raises(self):
+        return [RaiseSpec("UnicodeDecodeError")]
+
+    def modifies(self, c, file):
+        return [(file, "pos")]
+
+    def fresh_result(self, c, file):
+        return c.str("name")
+
+    @staticmethod
+    def _term(d, p, p1):
+        return And(p1 - p >= 2, (p1 - p) % 2 == 0, nth(d, p1 - 2) == 0, nth(d, p1 - 1) == 0)
+
+    def ensures(self, c, old, result, file):
+        from pyvc.values import min_
+
+        d, p = old.data(file), old.pos(file)
+        p1 = c.pos(file)
+        term = self._term(d, p, p1)
+        e = ite(term, p1 - 2, p1)
+        c.inst((p1 - p) // 2 - 1)  # proof hint: the loop invariant's fact about the last unit read
+        return [
+            ("terminated-name", Implies(term, eq(result, U16.decode(slice_(d, p, p1 - 2))))),
+            ("unterminated-name", Implies(Not(term), And(eq(result, U16.decode(slice_(d, p, p1))), p1 == min_(p + 2 * MAX_UNITS, L(d))))),
+            ("no-earlier-terminator", ForAll(lambda j: Implies(And(j >= 0, p + 2 * j + 2 <= e), Not(And(nth(d, p + 2 * j) == 0, nth(d, p + 2 * j + 1) == 0))), over=d, trigger=False)),
+            ("bounded-consumption", And(p1 >= p, p1 <= p + 2 * MAX_UNITS, p1 <= L(d))),
+            ("frame-data", eq(c.data(file), d)),
+        ]
+
+    def loops(self):
+        def inv(c, Lp):
+            from pyvc.values import min_
+
+            file = c.bound["file"]
+            d, p = c.old.data(file), c.old.pos(file)
+            i = Lp.i
+            pos = c.pos(file)
+            val = Lp.local("val")
+            return [
+                ("pos", pos == min_(p + 2 * i, L(d))),
+                ("val", eq(val, slice_(d, p, pos))),
+                ("no-zero-unit", ForAll(lambda j: Implies(And(j >= 0, j < i, p + 2 * j + 2 <= L(d)), Not(And(nth(d, p + 2 * j) == 0, nth(d, p + 2 * j + 1) == 0))), over=d, trigger=False)),
+                ("frame-data", eq(c.data(file), d)),
+            ]
+
+        return {"archiveinfo:read_utf16#loop0": LoopSpec("for-units", inv, target="_ in range(MAX_LENGTH)")}
